@@ -604,7 +604,7 @@ class Frame:
         root, proj = self.root_of(place)
         if root not in self.store:
             # promoted constants held in locals
-            if isinstance(root, int):
+            if isinstance(root, int) and 0 <= root < len(self.body.locals):
                 c = self.res.local_const(root)
                 if c is not None:
                     v = const_to_abs(c)
@@ -803,6 +803,10 @@ class Interp:
         self.switch_hook = None    # (fr, term, dv, pth) -> target bb | None : assumed branch outcomes
         self.opaque_sites = []
         self.call_sites = 0
+        self.body_override = {}    # path -> Body (e.g. with private helpers inlined, see inline.py)
+        self.cast_hook = None      # (rvalue, operand value) -> abstract value | None
+        self.propagate_hooks = False   # binop_hook also applies inside inlined callees / closures
+        self._extra_keys = ()
 
     def opaque(self, why, where):
         self.fresh += 1
@@ -811,14 +815,19 @@ class Interp:
         return Lin.atom(name)
 
     # ------------------------------------------------------------ running a function
-    def run(self, path, args):
+    def run(self, path, args, extra=None):
         """Interpret function `path` with abstract `args`; returns list of results
-        (Path, return value, {param index: final pointee value})."""
-        body = self.facts.body(path)
+        (Path, return value, {param index: final pointee value}).  `extra` seeds additional
+        store roots (values that references in `args` designate); their final values are
+        returned in the third component under the same keys."""
+        body = self.body_override.get(path) or self.facts.body(path)
         if body is None:
             raise NotDerivable('no MIR for %s' % path)
         results = []
         frame = Frame(self, body, args)
+        self._extra_keys = tuple(extra.keys()) if extra else ()
+        if extra:
+            frame.store.update(extra)
         work = [(frame, 0, Path())]
         while work:
             fr, bb, pth = work.pop()
@@ -866,6 +875,8 @@ class Interp:
                 for i in range(1, body.arg_count + 1):
                     if ('*', i) in fr.store:
                         out[i] = fr.store[('*', i)]
+                for key in getattr(self, '_extra_keys', ()):
+                    out[key] = fr.store.get(key, TOP)
                 results.append((pth, fr.store.get(0, TOP), out))
                 return
             elif k == 'assert':
@@ -1096,6 +1107,11 @@ class Interp:
                 fr.storev(dst, TOP)
         elif k == 'cast':
             a = fr.operand(rv['op'])
+            if self.cast_hook is not None:
+                hv = self.cast_hook(rv, a)
+                if hv is not None:
+                    fr.storev(dst, hv)
+                    return
             if rv['kind'] == 'IntToInt' and (isinstance(a, (Int, BV)) or (self.binop_hook is not None and a is not TOP and not isinstance(a, (Lin, Agg, tuple)))):
                 fr.storev(dst, a)
             elif rv['kind'].startswith('PointerCoercion'):
@@ -1129,6 +1145,10 @@ class Interp:
         if self.extra_transfer is not None:
             if self.extra_transfer(self, fr, t, c, pth):
                 return
+
+        import stdmodel
+        if stdmodel.std_transfer(self, fr, t, c, pth):
+            return
 
         # ---- plumbing that is value-transparent
         if (d.endswith('IntoIterator>::into_iter') or d.endswith('IntoIterator::into_iter')) and not res.startswith('core::slice::iter::') and not res.startswith('std::array::<impl std::iter::IntoIterator for &'):
@@ -1213,19 +1233,19 @@ class Interp:
         if trait == 'std::iter::Iterator' and name in ('filter', 'take_while', 'map', 'skip_while') and len(args) == 2:
             inner = fr.operand(args[0])
             cl = self._closure_value(fr, args[1])
-            if isinstance(inner, (SliceIt, AdaptIt, RangeIt)) and cl is not None:
+            if (isinstance(inner, (SliceIt, AdaptIt, RangeIt)) or hasattr(inner, 'iter_next')) and cl is not None:
                 fr.storev(dest, AdaptIt(name, inner, cl[0], cl[1]))
                 return
         if name == 'next' and trait == 'std::iter::Iterator':
             itv = fr.deref_operand(args[0])
-            if isinstance(itv, AdaptIt) or (isinstance(itv, SliceIt) and not res.startswith('<std::slice::Iter<')):
+            if isinstance(itv, AdaptIt) or hasattr(itv, 'iter_next') or (isinstance(itv, SliceIt) and not res.startswith('<std::slice::Iter<')):
                 val, nit = self._iter_next(itv, where)
                 fr.storev(dest, val)
                 fr.store_through(args[0], nit)
                 return
         if name == 'collect' and trait == 'std::iter::Iterator':
             itv = fr.operand(args[0])
-            if isinstance(itv, (SliceIt, AdaptIt)):
+            if isinstance(itv, (SliceIt, AdaptIt)) or hasattr(itv, 'iter_next'):
                 out = []
                 for _ in range(100000):
                     val, itv = self._iter_next(itv, where)
@@ -1342,9 +1362,63 @@ class Interp:
             return rv['kind']['closure'], Agg([fr.operand(o_) for o_ in rv['ops']])
         return None
 
-    def _call_closure(self, path, captures, arg, where):
+    def _sub(self):
         sub = Interp(self.facts, self.mode, self.inline, self.max_steps, self.max_paths, self.conj_as, self.frob_q, self.extra_transfer)
         sub.steps = self.steps
+        sub.fresh = self.fresh
+        sub.sums = self.sums
+        sub.interned = self.interned
+        sub.cast_hook = self.cast_hook
+        sub.body_override = self.body_override
+        if self.propagate_hooks:
+            sub.binop_hook = self.binop_hook
+            sub.propagate_hooks = True
+        return sub
+
+    def _call_closure_rw(self, fr, path, captures, args, where):
+        """Call a closure whose captured `&mut` state lives in frame `fr`: captured references
+        are re-rooted in the callee frame and the final values written back."""
+        cbody = self.facts.body(path)
+        if cbody is None:
+            raise NotDerivable('closure body not available', where)
+        extra = {}
+        caps = []
+        back = []
+        for k, v in enumerate(captures.items):
+            if isinstance(v, Ref):
+                key = ('up', k, len(fr.store))
+                val = fr._project(fr.store.get(v.root, TOP), v.proj)
+                for _ in range(8):
+                    # a reference to a reference: follow it inside the caller's frame
+                    if not isinstance(val, Ref):
+                        break
+                    v = val
+                    val = fr._project(fr.store.get(v.root, TOP), v.proj)
+                if isinstance(val, Ref):
+                    val = TOP
+                extra[key] = val
+                caps.append(Ref(key, []))
+                back.append((key, v))
+            else:
+                caps.append(v)
+        caps = Agg(caps, captures.kind)
+        first = ('byref', caps) if cbody.local_ty(1).startswith('&') else caps
+        sub = self._sub()
+        results = sub.run(path, [first] + list(args), extra=extra)
+        self.steps = sub.steps
+        self.fresh = sub.fresh
+        self.call_sites += sub.call_sites
+        results = [r for r in results if not (isinstance(r[1], tuple) and r[1] and r[1][0] == 'diverges')]
+        if len(results) != 1:
+            raise NotDerivable('closure %s does not evaluate to a single value on a modelled item (%d paths)' % (path, len(results)), where)
+        pth2, ret, outs = results[0]
+        for key, v in back:
+            if key in outs:
+                fr.store[v.root] = fr._update(fr.store.get(v.root), list(v.proj), outs[key]) if v.proj else outs[key]
+        return ret
+
+    def _call_closure(self, path, captures, arg, where):
+        sub = self._sub()
         cbody = self.facts.body(path)
         if cbody is None:
             raise NotDerivable('closure body not available', where)
@@ -1364,6 +1438,8 @@ class Interp:
             if itv.pos < len(itv.items):
                 return Opt('some', itv.items[itv.pos]), SliceIt(itv.items, itv.pos + 1)
             return Opt('none', TOP), itv
+        if hasattr(itv, 'iter_next'):
+            return itv.iter_next(self, where)
         if isinstance(itv, RangeIt):
             if itv.cur < itv.end:
                 return Opt('some', Int(itv.cur)), RangeIt(itv.cur + 1, itv.end)
@@ -1437,9 +1513,7 @@ class Interp:
                 cargs.append(('byref', fr.deref_operand(a)))
             else:
                 cargs.append(fr.operand(a))
-        sub = Interp(self.facts, self.mode, self.inline, self.max_steps, self.max_paths, self.conj_as, self.frob_q, self.extra_transfer)
-        sub.steps = self.steps
-        sub.fresh = self.fresh
+        sub = self._sub()
         results = sub.run(res, cargs)
         self.steps = sub.steps
         self.fresh = sub.fresh
